@@ -450,19 +450,300 @@ def bind_stage(ctx: vlib.Ctx, exe: str | None) -> None:
                         ctx.broke("C", label, f"{what}: model {got} real {want}", {"def": sig_src("f", sigs[si]), "call": call_src("f", npos, ks)})
         ctx.add("traces_validated_against_impl", len(cases))
 
+
+# ====================================================================== (a') star actuals: *tuple, **TypedDict
+
+def gen_pshapes(max_flat: int) -> list[tuple[str, ...]]:
+    """Positional part with at least one star item: sequences over P (plain positional) and S0..S3 (a `*` tuple of that
+    known length), at most 3 items, at most 2 stars, at most max_flat values after expansion."""
+    out = []
+    toks = ["P", "S0", "S1", "S2", "S3"]
+    for n in range(1, 4):
+        for seq in itertools.product(toks, repeat=n):
+            stars = [t for t in seq if t != "P"]
+            flat = sum(1 if t == "P" else int(t[1]) for t in seq)
+            if 1 <= len(stars) <= 2 and flat <= max_flat:
+                out.append(seq)
+    return out
+
+
+def gen_tds(universe: list[str]) -> list[tuple[tuple[str, ...], tuple[str, ...]]]:
+    """TypedDicts with 0-2 required and 0-1 optional keys over the given names: (required, optional)."""
+    out = []
+    for r in range(0, 3):
+        for req in itertools.combinations(universe, r):
+            out.append((req, ()))
+            for o in universe:
+                if o not in req:
+                    out.append((req, (o,)))
+    return out
+
+
+def td_name(td: tuple[tuple[str, ...], tuple[str, ...]]) -> str:
+    return "r_" + "_".join(td[0]) + "__o_" + "_".join(td[1])
+
+
+def pitem_src(t: str, var: bool) -> str:
+    if t == "P":
+        return "0"
+    n = int(t[1])
+    if var and n >= 1:
+        return f"*tv{n}"
+    return "*(" + "".join("0, " for _ in range(n)) + ")"
+
+
+def star_call_src(fname: str, ps: tuple[str, ...], ks: tuple[str, ...], td: Any, td_first: bool, kw_first: bool, var: bool) -> str:
+    pos = [pitem_src(t, var) for t in ps]
+    kw = [k + "=0" for k in ks]
+    tdl = [f"**td_{td_name(td)}"] if td is not None else []
+    kwpart = (tdl + kw) if td_first else (kw + tdl)
+    if kw_first and kw and pos and ps[-1] != "P" and not td_first:
+        # a star tuple may follow keyword arguments: f(a=0, *(0,)); the **TypedDict stays last
+        return f"{fname}({', '.join(pos[:-1] + kw + pos[-1:] + tdl)})"
+    return f"{fname}({', '.join(pos + kwpart)})"
+
+
+def gen_star_calls(sig: list[tuple[str, str, bool]], rng: vlib.Rng, cap: int) -> list[tuple[tuple[str, ...], tuple[str, ...], Any, bool, bool]]:
+    """(positional items, explicit keywords, TypedDict or None, td_first, kw_first)"""
+    universe = [n for _, n, _ in sig] + [UNKNOWN_KW]
+    nparams = len(sig)
+    pshapes = gen_pshapes(min(4, nparams + 2))
+    plain = [tuple(["P"] * n) for n in range(0, 3)]
+    tds = gen_tds(universe)
+    kw1 = [()] + [(k,) for k in universe]
+    out: list[tuple[tuple[str, ...], tuple[str, ...], Any, bool, bool]] = []
+    # A: star tuples x at most one explicit keyword (also written before the last star tuple)
+    for ps in pshapes:
+        for ks in kw1:
+            out.append((ps, ks, None, False, False))
+            if ks and ps[-1] != "P":
+                out.append((ps, ks, None, False, True))
+    # B: **TypedDict x plain positionals or one star tuple x at most one explicit keyword
+    some_stars = [("S1",), ("S2",), ("P", "S1"), ("S1", "S1"), ("S0",)]
+    for td in tds:
+        for ps in plain + some_stars:
+            for ks in kw1:
+                out.append((ps, ks, td, len(out) % 2 == 0, False))
+    if len(out) > cap:
+        out = rng.sample(out, cap)
+    return out
+
+
+def star_stage(ctx: vlib.Ctx, exe: str | None) -> None:
+    import re
+    from mypy import build as B
+    from mypy.modulefinder import BuildSource
+    from mypy.options import Options
+    rng = vlib.Rng(ctx.seed, "bind-star")
+    maxp = 3 if ctx.quick else 4
+    sigs = gen_sigs(maxp)
+    cap = (lambda n: 10 ** 9 if n <= 2 else 110) if ctx.quick else (lambda n: 10 ** 9 if n <= 3 else 400)
+    all_tds: dict[str, tuple[tuple[str, ...], tuple[str, ...]]] = {}
+    cases: list[tuple[int, tuple[str, ...], tuple[str, ...], Any, bool, bool, bool]] = []
+    for si, sig in enumerate(sigs):
+        for j, (ps, ks, td, tdf, kwf) in enumerate(gen_star_calls(sig, rng, cap(len(sig)))):
+            if td is not None:
+                all_tds[td_name(td)] = td
+            cases.append((si, ps, ks, td, tdf, kwf, j % 3 == 0))
+    head = ["from typing import TypedDict, NotRequired", "tv1: tuple[int]", "tv2: tuple[int, int]", "tv3: tuple[int, int, int]"]
+    for nm, (req, opt) in sorted(all_tds.items()):
+        body = [f"    {k}: int" for k in req] + [f"    {k}: NotRequired[int]" for k in opt] or ["    pass"]
+        head.append(f"class TD_{nm}(TypedDict):")
+        head += body
+        head.append(f"td_{nm}: TD_{nm}")
+    src_lines = list(head)
+    for si, sig in enumerate(sigs):
+        src_lines.append(sig_src(f"f{si}", sig))
+    line_of = []
+    srcs = []
+    for si, ps, ks, td, tdf, kwf, var in cases:
+        cs = star_call_src(f"f{si}", ps, ks, td, tdf, kwf, var)
+        srcs.append(cs)
+        src_lines.append(cs)
+        line_of.append(len(src_lines))
+    ctx.log(f"(a') {len(cases)} calls with *tuple / **TypedDict actuals over {len(sigs)} signatures, {len(all_tds)} TypedDicts")
+    o = Options()
+    o.incremental = False
+    o.hide_error_codes = False
+    o.error_summary = False
+    tmp = tempfile.mkdtemp(prefix="c12ab_")
+    try:
+        o.cache_dir = os.path.join(tmp, "cache")
+        r = B.build([BuildSource(None, "bindstar", "\n".join(src_lines) + "\n")], o)
+    finally:
+        shutil.rmtree(tmp, ignore_errors=True)
+    err_lines: dict[int, list[str]] = {}
+    for e in r.errors:
+        m = re.match(r"^[^:]+:(\d+): (error|note): (.*?)(?:\s+\[([a-z-]+)\])?$", e)
+        if not m:
+            ctx.broke("C", "bind-star glue", f"cannot parse diagnostic {e!r}")
+            continue
+        if m.group(2) == "note":
+            continue
+        if m.group(4) not in ARITY_CODES or int(m.group(1)) <= len(head) + len(sigs):
+            ctx.broke("C", "bind-star glue", f"unexpected diagnostic {e!r}")
+        err_lines.setdefault(int(m.group(1)), []).append(m.group(3))
+    mypy_ok = [ln not in err_lines for ln in line_of]
+    # real CPython: evaluate the very same call text; optional TypedDict keys present / absent
+    ns_full: dict[str, Any] = {"tv1": (0,), "tv2": (0, 0), "tv3": (0, 0, 0)}
+    exec("\n".join(sig_src(f"f{si}", sig) for si, sig in enumerate(sigs)), ns_full)
+    ns_abs = dict(ns_full)
+    for nm, (req, opt) in all_tds.items():
+        ns_full[f"td_{nm}"] = {k: 0 for k in req + opt}
+        ns_abs[f"td_{nm}"] = {k: 0 for k in req}
+
+    def rt(cs: str, ns: dict[str, Any]) -> tuple[bool, str]:
+        try:
+            eval(cs, ns)
+            return True, ""
+        except TypeError as e:
+            return False, str(e)
+    cp_full = [rt(cs, ns_full) for cs in srcs]
+    cp_abs = [rt(cs, ns_abs) if (c[3] is not None and c[3][1]) else cp_full[i] for i, (cs, c) in enumerate(zip(srcs, cases))]
+    flags = star_model(ctx, exe, sigs, cases, srcs, mypy_ok, cp_full)
+    rejected = 0
+    scen_dep = 0
+    nviol = 0
+    classes: dict[str, int] = {}
+    for i, c in enumerate(cases):
+        si, ps, ks, td, tdf, kwf, var = c
+        if not cp_full[i][0]:
+            rejected += 1
+        if cp_full[i][0] != cp_abs[i][0]:
+            scen_dep += 1     # the outcome depends on whether the optional key is present: no verdict can match both
+        if mypy_ok[i] == cp_full[i][0] or mypy_ok[i] == cp_abs[i][0]:
+            continue
+        nviol += 1
+        d = sig_src("f", sigs[si])
+        cs = srcs[i].replace(f"f{si}(", "f(", 1)
+        cls = star_class(sigs[si], ps, ks, td, mypy_ok[i], cp_full[i][1], flags[i] if flags else None)
+        classes[cls] = classes.get(cls, 0) + 1
+        key = f"bind-star:{cls}" if cls != "other" else f"bind-star:{d}:{cs}"
+        if cls == "other" and nviol > MAX_REPORTED * 4:
+            continue
+        ctx.violation(key,
+                      f"`{d}` called as `{cs}`" + (f" (TypedDict required {td[0]}, optional {td[1]})" if td else "") +
+                      f": mypy {'accepts' if mypy_ok[i] else 'rejects ' + repr(err_lines.get(line_of[i]))}, "
+                      f"CPython {'binds' if cp_full[i][0] else 'raises TypeError: ' + cp_full[i][1]}",
+                      {"kind": "bind-star", "class": cls, "def": d, "call": cs, "typeddict": td})
+    ctx.add("evaluations", len(cases))
+    ctx.cov["bind_star_calls"] = len(cases)
+    ctx.cov["bind_star_rejected_by_cpython"] = rejected
+    ctx.cov["bind_star_outcome_depends_on_optional_key"] = scen_dep
+    ctx.cov["bind_star_disagreements_by_class"] = classes
+    k = len(cases) // 2
+    ctx.sample({"def": sig_src("f", sigs[cases[k][0]]), "call": srcs[k], "mypy_ok": mypy_ok[k], "cpython_ok": cp_full[k][0]})
+
+
+L1 = "L1:TypedDict-key-named-like-*args-parameter"
+L2 = "L2:star-tuple-item-and-TypedDict-key-for-the-same-parameter"
+L3 = "L3:keyword-supplied-twice-after-expanding-TypedDict"
+
+
+def star_class(sig: list[tuple[str, str, bool]], ps: tuple[str, ...], ks: tuple[str, ...], td: Any, mypy_ok: bool, cpmsg: str,
+               flags: str | None) -> str:
+    """Name of the leniency class of a disagreement (stable finding keys), or 'other'.  With the extracted model: the class
+    is the one whose exclusion (Bind.no_L1/no_L2/no_L3) fails; a disagreement on a plain_like call contradicts
+    arity_agrees_star and is always 'other'."""
+    if td is None or not mypy_ok:
+        return "other"
+    if flags is not None:
+        # flags = shape, no_L1, no_L2, no_L3
+        return L3 if flags[3] == "0" else L2 if flags[2] == "0" else L1 if flags[1] == "0" else "other"
+    keys = td[0] + td[1]
+    star_names = [n for k, n, _ in sig if k == "S"]
+    has_kw = any(k == "K" for k, _, _ in sig)
+    if "multiple values for keyword argument" in cpmsg and any(k in keys for k in ks):
+        return L3
+    if "multiple values for argument" in cpmsg and any(t != "P" for t in ps):
+        return L2
+    if any(k in star_names for k in keys) and not has_kw:
+        return L1
+    return "other"
+
+
+def star_model(ctx: vlib.Ctx, exe: str | None, sigs: Any, cases: Any, srcs: list[str], mypy_ok: list[bool], cp_full: list[tuple[bool, str]]) -> list[str] | None:
+    if not exe:
+        return None
+    lines = []
+    for si, ps, ks, td, tdf, kwf, var in cases:
+        pe = ",".join(ps) or "-"
+        kitems = ["N" + str(name_id(k)) for k in ks]
+        if td is not None:
+            t = "T" + ".".join(str(name_id(k)) for k in td[0] + td[1])
+            kitems = [t] + kitems if tdf else kitems + [t]
+        lines.append(f"binds {sig_enc(sigs[si])} {pe} {','.join(kitems) or '-'}")
+    out = run_driver(exe, lines)
+    real = star_real_f2a(sigs, cases)
+    bad = 0
+    for i, (o_, c) in enumerate(zip(out, cases)):
+        si, ps, ks, td, tdf, kwf, var = c
+        w = o_.split()
+        if len(w) != 8 or w[5][0] != "1":
+            ctx.broke("C", "bind-star driver", f"{lines[i]}: {o_}")
+            break
+        what = f"`{sig_src('f', sigs[si])}` called as `{srcs[i]}`"
+        checks = [("BindStar.mypy_accepts_s vs mypy diagnostics (mypy.build)", w[1] == "1", mypy_ok[i]),
+                  ("BindStar.cpython_bind_s vs a real CPython call", w[3] == "1", cp_full[i][0])]
+        if not kwf:
+            checks.append(("BindStar.map_actuals_to_formals_s vs mypy.argmap.map_actuals_to_formals", w[7], "=" + real[i]))
+        for label, got, want in checks:
+            if got != want:
+                bad += 1
+                if bad <= 6:
+                    ctx.broke("C", label, f"{what}: model {got} real {want}", {"def": sig_src("f", sigs[si]), "call": srcs[i], "typeddict": td})
+    ctx.add("traces_validated_against_impl", len(cases))
+    fl = [o_.split()[5] if len(o_.split()) == 8 else "1111" for o_ in out]
+    ctx.cov["bind_star_plain_like_calls"] = sum(1 for f in fl if f == "1111")
+    return fl
+
+
+def star_real_f2a(sigs: Any, cases: Any) -> list[str]:
+    from mypy import nodes
+    from mypy.argmap import map_actuals_to_formals
+    from mypy.types import AnyType, Instance, TupleType, TypedDictType, TypeOfAny
+    KIND = {"P": nodes.ARG_POS, "O": nodes.ARG_OPT, "S": nodes.ARG_STAR, "N": nodes.ARG_NAMED, "M": nodes.ARG_NAMED_OPT, "K": nodes.ARG_STAR2}
+    fb = Instance(_mkinfo("builtins.tuple", []), [])
+    anyt = AnyType(TypeOfAny.special_form)
+    out = []
+    for si, ps, ks, td, tdf, kwf, var in cases:
+        sig = sigs[si]
+        kinds: list[Any] = []
+        names: list[Any] = []
+        types: list[Any] = []
+        for t in ps:
+            if t == "P":
+                kinds.append(nodes.ARG_POS); names.append(None); types.append(anyt)
+            else:
+                kinds.append(nodes.ARG_STAR); names.append(None); types.append(TupleType([anyt] * int(t[1]), fb))
+        kpart: list[tuple[Any, Any, Any]] = [(nodes.ARG_NAMED, k, anyt) for k in ks]
+        if td is not None:
+            keys = td[0] + td[1]
+            tdt = TypedDictType({k: anyt for k in keys}, set(td[0]), set(), fb)
+            kpart = [(nodes.ARG_STAR2, None, tdt)] + kpart if tdf else kpart + [(nodes.ARG_STAR2, None, tdt)]
+        for kd, nm, ty in kpart:
+            kinds.append(kd); names.append(nm); types.append(ty)
+        f2a = map_actuals_to_formals(kinds, names, [KIND[k] for k, _, _ in sig], [None if po else n for _, n, po in sig], lambda i: types[i])
+        out.append("".join(",".join(map(str, l)) + ";" for l in f2a))
+    return out
+
 # ====================================================================== entry point
 
 def run(ctx: vlib.Ctx) -> None:
     ctx.cov["rule"] = ctx.cov.get("rule", "") + (
         "; (b) every class hierarchy (class k picks an ordered subset of the earlier classes as bases), created for real "
         "on both sides (non-trivial = CPython rejects the class); (a) every def parameter list up to N parameters x every call of "
-        "<= 4 positional/keyword arguments over the parameter names and one unknown name (non-trivial = CPython raises TypeError)")
+        "<= 4 positional/keyword arguments over the parameter names and one unknown name (non-trivial = CPython raises TypeError); "
+        "(a') positional parts of <= 3 items with 1-2 `*tuple`s of length 0-3 (literal or typed variable) x <= 1 keyword (also before the last "
+        "star), and **TypedDict (0-2 required, 0-1 optional keys over the parameter names + one unknown) x plain positionals / star tuples x <= 1 keyword")
     ctx.assumptions += [
         "(b) CPython's pmerge/mro_implementation (Objects/typeobject.c) transcribed by hand into C12/Mro.v; tied to the running "
         "CPython 3.12 by exhaustive comparison with type(name, bases, {}).__mro__ / TypeError",
         "(b) duplicate bases are outside the fragment (rejected before MRO computation by both: semanal 'Duplicate base class', check_duplicates)",
         "(a) CPython's initialize_locals (Python/ceval.c) transcribed by hand into C12/Bind.v (per-slot form); tied to the running "
-        "CPython 3.12 by calling real functions; *tuple / **TypedDict actuals are outside the modelled fragment",
+        "CPython 3.12 by calling real functions; star actuals = *tuple of known length, **TypedDict (a call whose outcome depends "
+        "on a NotRequired key being present is counted, and is a violation only if mypy's verdict matches neither outcome); "
+        "*iterable / **dict of unknown shape are indeterminate and not generated",
         "(a) mypy's verdict = absence of call-arg/misc diagnostics on the call line in a real in-process mypy.build of generated source",
         "extraction: ExtrOcamlBasic only; OCaml driver tools/ocaml/c12ab_driver.ml (I/O only)",
     ]
@@ -472,4 +753,6 @@ def run(ctx: vlib.Ctx) -> None:
         ctx.broke("C", "extraction", "extracted model c12ab does not build")
     mro_stage(ctx, exe)
     bind_stage(ctx, exe)
-    ctx.cov["ab_nontrivial"] = ctx.cov.get("mro_rejected_by_cpython", 0) + ctx.cov.get("bind_rejected_by_cpython", 0)
+    star_stage(ctx, exe)
+    ctx.cov["ab_nontrivial"] = (ctx.cov.get("mro_rejected_by_cpython", 0) + ctx.cov.get("bind_rejected_by_cpython", 0)
+                                + ctx.cov.get("bind_star_rejected_by_cpython", 0))
